@@ -124,7 +124,10 @@ TrigF(td, from, caller) ==
                    !.from = from, !.phase = "select", !.caller = caller]
 
 \* opt = [rtc, allow, start, budget];  async is decided at construction from the providers
-IsAsync(d, provs) == \E c \in DOMAIN d.cbs : d.cbs[c].coro /\ d.cbs[c].prov \in provs
+\* a naming-convention callback for an event that no transition carries is never registered
+Registered(d, cb) == cb.okind = "E" => \E j \in DOMAIN d.trans : InSeq(cb.owner, d.trans[j].evs)
+IsAsync(d, provs) == \E c \in DOMAIN d.cbs :
+                        d.cbs[c].coro /\ d.cbs[c].prov \in provs /\ Registered(d, d.cbs[c])
 
 NoGV == [none |-> TRUE]
 NewM(d, opt, stored, provs) ==
@@ -250,7 +253,7 @@ DoBeginCb(d, m, c) ==
 \* (it is queued behind everything already queued).  non-RTC: the nested event runs now,
 \* depth-first, and its result is what the callback receives.
 EnNestedSend(d, m, c) ==
-    /\ TopIs(m, "trig") /\ ~m.raising
+    /\ TopIs(m, "trig") /\ (~m.raising \/ m.async)
     /\ LET f == Top(m) IN IsOpen(f, c) /\ OpenOf(f, c).wait = "no" /\ CanAct(d, f, c)
 DoNestedSend(d, m, c, ev) ==
     LET f  == Top(m)
@@ -264,7 +267,7 @@ DoNestedSend(d, m, c, ev) ==
                  TrigF(td, m.cur, c))
 
 EnNestedRet(d, m, c) ==
-    /\ TopIs(m, "trig") /\ ~m.raising
+    /\ TopIs(m, "trig") /\ (~m.raising \/ m.async)
     /\ LET f == Top(m) IN IsOpen(f, c) /\ OpenOf(f, c).wait = "ready" /\ CanAct(d, f, c)
 NestedGot(m, c) == OpenOf(Top(m), c).got
 DoNestedRet(d, m, c) ==
